@@ -172,6 +172,10 @@ func runC03(ctx *runCtx) {
 			cases = append(cases, genViolationCase(rng, maxSize/4, i%10))
 		}
 	}
+	// context takeover across a message that ended with a final deflate block (the sender keeps its window)
+	for k := 0; k < 24; k++ {
+		cases = append(cases, genFinalBlockHistoryCase(rng, k))
+	}
 	runReadCases(ctx, cases, func(c *ReadCase) string {
 		if c.Desc == "valid" {
 			return "valid"
